@@ -28,6 +28,7 @@ EXPLANATION = (
     "2/sqrt(3) Mises, eigen-solver accuracy.")
 EXPLANATION += (' R-C17-8: nothing derived from the stress columns is cached on the accessor object (memo rule: caching decorators, unreset memo attributes; built-in positive example).')
 EXPLANATION += (' R-C17-7: every square root in the equivalent-stress module takes a radicand that is non-negative by its form (sums and products of even powers, x*x, abs, non-negative constants; no differences), so that cancellation cannot round it below zero (hydrostatic states).')
+EXPLANATION += (" R-C17-9 (shared state-family rules, sa/statefam.py): no mutable class attribute of the stress accessor classes is changed through an instance (it would be shared by all accessor objects), no value derived from an argument is memoised under a partial key, no memoised object is handed out.")
 ASSUMPTIONS = ["np.linalg.eigvalsh returns ascending eigenvalues of the symmetric matrix given by its UPLO triangle (default 'L')",
                "numpy stacks a 3x3 list of arrays as (3,3,N); .T reverses all axes"]
 
@@ -540,8 +541,18 @@ class EigenDomain(Domain):
 
 
 def run(ctx):
-    for r in (_r1, _r2, _r3, _r4, _r5, _r6, _r7, _r8):
+    for r in (_r1, _r2, _r3, _r4, _r5, _r6, _r7, _r8, _r9):
         ctx.attempt(r)
+
+
+def _r9(ctx):
+    """R-C17-9 (state families, sa/statefam.py): no class-level mutable attribute of the accessor (or its bases) is changed
+    through an instance, no partially keyed memo, no memo object handed out - two accessor objects alive at the same time must
+    not see each other's tensors."""
+    from .. import statefam
+    prog = ctx.prog
+    classes = [ci for k, ci in sorted(prog.classes.items()) if ci.module.name in (EQ, 'pylife.stress.stresssignal')]
+    statefam.apply(ctx, 'R-C17-9', 'no shared class-level state / partial memo in the equistress accessor classes', classes=classes, floor=2)
 
 
 def _r8(ctx):
